@@ -718,8 +718,55 @@ fn hostile_files(seed: u64, idx: u64, work: &Path, rep: &mut Report) {
     let _ = std::fs::remove_dir_all(&dir);
 }
 
+/// Signature and delta FILES larger than 2 MiB written by the CLI (a signature of tens of thousands of blocks, a
+/// delta that is mostly new data) must be the library's encoding, byte for byte, and must be read back.
+fn cli_big_outputs(seed: u64, idx: u64, work: &Path, rep: &mut Report) {
+    let mut rng = Rng::derive(seed, 2020, idx);
+    let dir = work.join(format!("big{idx}"));
+    let _ = std::fs::remove_dir_all(&dir);
+    std::fs::create_dir_all(&dir).unwrap();
+    rep.evaluations += 1;
+    let nblocks = rng.range(53_000, 60_000);
+    let tail = rng.range(0, 511);
+    let basis = rng.bytes(nblocks * 512 + tail);
+    std::fs::write(dir.join("basis"), &basis).unwrap();
+    let r = run_limited(&["signature", "basis", "-b", "512", "-o", "big.sig"], &dir, 4 * 1024 * 1024, 120);
+    let want = Signature::generate(&mut Cursor::new(&basis), 512).ok().and_then(|s| bincode::serialize(&s).ok());
+    let got = std::fs::read(dir.join("big.sig")).ok();
+    rep.max("max_cli_signature_file_bytes", got.as_ref().map_or(0, |g| g.len() as u64));
+    if r.code != Some(0) || got.is_none() || got != want {
+        rep.violation("C20|cli|signature-file-over-2MiB-differs-from-library-encoding", json!({"seed": seed, "case": idx, "code": r.code, "signal": r.signal, "file_len": got.as_ref().map(Vec::len), "want_len": want.as_ref().map(Vec::len), "stderr": r.stderr.chars().take(300).collect::<String>()}));
+    }
+    // a source that is mostly new data against that signature: the delta file exceeds 2 MiB as well
+    let mut source = basis[..basis.len().min(200_000)].to_vec();
+    let extra_len = rng.range(2_200_000, 3_500_000);
+    source.extend_from_slice(&rng.bytes(extra_len));
+    std::fs::write(dir.join("source"), &source).unwrap();
+    if let Some(w) = &want {
+        std::fs::write(dir.join("lib.sig"), w).unwrap();
+        let r = run_limited(&["delta", "source", "lib.sig", "-o", "big.delta"], &dir, 4 * 1024 * 1024, 120);
+        let gotd = std::fs::read(dir.join("big.delta")).ok();
+        rep.max("max_cli_delta_file_bytes", gotd.as_ref().map_or(0, |g| g.len() as u64));
+        let ok = r.code == Some(0) && gotd.as_ref().and_then(|b| bincode::deserialize::<Delta>(b).ok()).map(|d| d.source_size == source.len() as u64 && d.checksum.as_bytes() == blake3::hash(&source).as_bytes()).unwrap_or(false);
+        if !ok {
+            rep.violation("C20|cli|delta-file-over-2MiB-not-decodable-to-the-source's-delta", json!({"seed": seed, "case": idx, "code": r.code, "signal": r.signal, "file_len": gotd.as_ref().map(Vec::len), "stderr": r.stderr.chars().take(300).collect::<String>()}));
+        } else {
+            let r = run_limited(&["patch", "basis", "big.delta", "-o", "big.out"], &dir, 4 * 1024 * 1024, 120);
+            if !(r.code == Some(0) && std::fs::read(dir.join("big.out")).ok().as_deref() == Some(&source[..])) {
+                rep.violation("C20|cli|delta-file-over-2MiB-not-applied", json!({"seed": seed, "case": idx, "code": r.code, "stderr": r.stderr.chars().take(300).collect::<String>()}));
+            }
+        }
+    }
+    rep.distinct.insert("cli|outputs-over-2MiB".into());
+    rep.count("cli_big_output_cases", 1);
+    let _ = std::fs::remove_dir_all(&dir);
+}
+
 pub fn run(seed: u64, thorough: bool, cases: Option<u64>, work: &Path, stage: &str) -> Report {
     let mut rep = Report::default();
+    if stage == "cli" || stage == "all" {
+        rep.merge(par_cases(if thorough { 12 } else { 2 }, |i, r| cli_big_outputs(seed, i, work, r)));
+    }
     if stage == "lib" || stage == "all" {
         let n = cases.unwrap_or(if thorough { 60_000 } else { 5000 });
         rep.merge(par_cases(n, |i, r| roundtrip(seed, i, r)));
